@@ -20,12 +20,23 @@ class VLoop(asyncio.BaseEventLoop):
         self._vtime = 0.0
         self._clock_resolution = 0.0
         self.errors = []
+        self.default_ctl = None
+        self.auto_default_jobs = True
         self.set_exception_handler(self._on_error)
         self._installed = False
 
     # --- plumbing -----------------------------------------------------------------------
     def time(self):
         return self._vtime
+
+    def run_in_executor(self, executor, func, *args):
+        # the loop's DEFAULT executor is owned too (no real thread pool is ever created): jobs wait in
+        # self.default_ctl; quiesce() runs them FIFO unless an explorer takes over (auto_default_jobs = False)
+        if executor is None:
+            if self.default_ctl is None:
+                self.default_ctl = CtlExecutor()
+            executor = self.default_ctl
+        return super().run_in_executor(executor, func, *args)
 
     def _write_to_self(self):
         pass
@@ -88,12 +99,16 @@ class VLoop(asyncio.BaseEventLoop):
 
     def quiesce(self, limit=100000):
         n = 0
-        while self.has_ready():
-            self.step()
-            n += 1
-            if n > limit:
-                raise RuntimeError("VLoop.quiesce: no quiescence after %d iterations (livelock)" % limit)
-        return n
+        while True:
+            while self.has_ready():
+                self.step()
+                n += 1
+                if n > limit:
+                    raise RuntimeError("VLoop.quiesce: no quiescence after %d iterations (livelock)" % limit)
+            if self.auto_default_jobs and self.default_ctl is not None and len(self.default_ctl):
+                self.default_ctl.run(0)
+                continue
+            return n
 
     def next_timer(self):
         t = None
